@@ -21,6 +21,8 @@ pub struct C02 {
 }
 
 const ENUM_RUNS: u64 = 6 * 2 * 5;
+/// length sweeps: (backend, purpose) x length windows
+const SWEEP_RUNS: u64 = 12;
 
 impl Scenario for C02 {
     fn property(&self) -> &'static str {
@@ -31,12 +33,12 @@ impl Scenario for C02 {
     }
     fn runs(&self, tier: Tier) -> u64 {
         match tier {
-            Tier::Quick => ENUM_RUNS + 3_000,
-            Tier::Thorough => ENUM_RUNS * 8 + 120_000,
+            Tier::Quick => ENUM_RUNS + SWEEP_RUNS + 3_000,
+            Tier::Thorough => ENUM_RUNS * 8 + SWEEP_RUNS * 6 + 120_000,
         }
     }
     fn rule(&self) -> String {
-        let base = "runs 0..48k: fault enumeration over one fresh token per (backend, purpose, footer y/n, assertion y/n): every single-bit flip of every payload and footer byte, every truncation from the back and the front, every boundary shift 1..min(len,64) message<->footer<->assertion and payload->footer, extensions front/back/middle, footer and assertion add/remove/replace/one-bit; remaining runs: exploration with 1-3 composed faults, wrong keys (another principal, one-bit neighbour), header relabels across versions and purposes delivered to the parser of the new label with a key of the same bytes; oracle = ideal token table (accept iff exactly-as-sealed). distinct = (backend, purpose, payload type, fault class combination, authentic y/n, outcome class)";
+        let base = "first runs: fault enumeration over one fresh token per (backend, purpose, footer y/n, assertion y/n): every single-bit flip of every payload and footer byte, every truncation from the back and the front, every boundary shift 1..min(len,64) message<->footer<->assertion and payload->footer, extensions front/back/middle, footer and assertion add/remove/replace/one-bit; then length sweeps per (backend, purpose): for every footer, assertion and message length 1..720 (thorough: ..4320) a token is sealed and the last, middle and first byte of that piece corrupted, and one byte moved across the footer/assertion boundary; remaining runs: exploration with 1-3 composed faults, wrong keys (another principal, one-bit neighbour), header relabels across versions and purposes delivered to the parser of the new label with a key of the same bytes; oracle = ideal token table (accept iff exactly-as-sealed). distinct = (backend, purpose, payload type, fault class combination, authentic y/n, outcome class)";
         if self.probe {
             format!("{base}; payload type Probe (decoder records invocations, fails on a marker) and a counting validator; paired deliveries of tokens differing only in payload content must fail with the same error kind")
         } else {
@@ -61,7 +63,14 @@ impl Scenario for C02 {
     }
     fn plan(&self, seed: u64, run: u64, tier: Tier) -> Plan {
         let enum_runs = if tier == Tier::Quick { ENUM_RUNS } else { ENUM_RUNS * 8 };
-        if run < enum_runs { self.enumerate(seed, run) } else { self.explore(seed, run, tier) }
+        let sweep_runs = if tier == Tier::Quick { SWEEP_RUNS } else { SWEEP_RUNS * 6 };
+        if run < enum_runs {
+            self.enumerate(seed, run)
+        } else if run < enum_runs + sweep_runs {
+            self.sweep(seed, run, run - enum_runs, tier)
+        } else {
+            self.explore(seed, run, tier)
+        }
     }
 }
 
@@ -91,6 +100,68 @@ impl C02 {
 
     fn validator(&self) -> VSpec {
         if self.probe { VSpec::Flag(true) } else { VSpec::None }
+    }
+
+    /// Length sweep: for every footer, assertion and message length of a window, the last, the middle
+    /// and the first byte of that piece are corrupted (a piece that is authenticated only up to some
+    /// internal buffer size, or whose length prefix is mishandled, shows at one specific length).
+    fn sweep(&self, seed: u64, run: u64, idx: u64, tier: Tier) -> Plan {
+        let bk = Bk::ALL[(idx % 6) as usize];
+        let purpose = if (idx / 6) % 2 == 0 { Purp::Local } else { Purp::Public };
+        let window = (idx / 12) as usize;
+        let mut b = Builder::new(self.name(), seed, run, vec![bk]);
+        let fk = b.family_keys(bk.family(), false).unwrap();
+        let now = Ns(b.now_ns);
+        let slow = purpose == Purp::Public && matches!(bk, Bk::V1 | Bk::V3);
+        let width = match (tier, slow) {
+            (Tier::Quick, true) => 90,
+            (Tier::Quick, false) => 720,
+            (Tier::Thorough, true) => 150,
+            (Tier::Thorough, false) => 720,
+        };
+        let (key, vkey) = if purpose == Purp::Local { (fk.local, fk.local) } else { (fk.secret, fk.public) };
+        let nl = nonce_len(bk.family(), purpose);
+        let v = self.validator();
+        for l in (window * width).max(1)..(window + 1) * width {
+            // (message, footer, assertion) lengths and the piece under attack
+            let mut shapes = vec![(5usize, l, 0usize, 'f'), (l, 3, 0, 'm')];
+            if bk.has_aad() {
+                shapes.push((5, 2, l, 'a'));
+            }
+            for (ml, fl, al, piece) in shapes {
+                let tok = b.tok_slot();
+                let claims = self.claims(&mut b, ml, false);
+                let ml = if self.probe { ml.max(crate::payloads::PROBE_FAIL_MARK.len()) } else { ml };
+                let footer = if fl == 0 { FootSpec::Unit } else { FootSpec::Bytes { bytes: Bytes::Gen { len: fl, seed: b.ev_seed() } } };
+                let aad = Bytes::Gen { len: al, seed: b.ev_seed() };
+                let rng = b.healthy_rng();
+                b.push(Step::Seal { tok, node: 0, key, purpose, claims, footer, aad, nonce: None, alias: false, rng, now_ns: now });
+                let positions = [l - 1, l / 2, 0];
+                for (i, pos) in positions.iter().enumerate() {
+                    if i > 0 && positions[..i].contains(pos) {
+                        continue;
+                    }
+                    let bit = ((l + i) % 8) as u8;
+                    let fault = match piece {
+                        'f' => TokFault::FlipFooter { byte: *pos, bit },
+                        'a' => TokFault::AadFlip { byte: *pos, bit },
+                        _ => TokFault::FlipPayload { byte: nl + (*pos).min(ml.saturating_sub(1)), bit },
+                    };
+                    b.push(Step::Deliver { tok, node: 0, key: vkey, purpose: None, faults: vec![fault], pk: None, fk: None, validator: v.clone(), alias: false, now_ns: now, pair_with: None });
+                }
+                // dropping and adding one byte at the end of the piece
+                match piece {
+                    'f' => {
+                        b.push(Step::Deliver { tok, node: 0, key: vkey, purpose: None, faults: vec![TokFault::ShiftFooterToAad { n: 1 }], pk: None, fk: Some(crate::backend::FootKind::Bytes), validator: v.clone(), alias: false, now_ns: now, pair_with: None });
+                    }
+                    'a' => {
+                        b.push(Step::Deliver { tok, node: 0, key: vkey, purpose: None, faults: vec![TokFault::ShiftAadToFooter { n: 1 }], pk: None, fk: None, validator: v.clone(), alias: false, now_ns: now, pair_with: None });
+                    }
+                    _ => {}
+                }
+            }
+        }
+        b.finish()
     }
 
     fn enumerate(&self, seed: u64, run: u64) -> Plan {
